@@ -34,6 +34,8 @@ WITNESS = {
   'checkgates': ('samlang-compiler', 'crates/samlang-compiler/src/lib.rs', 'wx/witness/samlang_compiler_lib.rs', 'verif_witness_search_errors'),
   'visgate': ('samlang-compiler', 'crates/samlang-compiler/src/lib.rs', 'wx/witness/samlang_compiler_lib.rs', 'verif_witness_search_errors'),
   'ssascope': ('samlang-compiler', 'crates/samlang-compiler/src/lib.rs', 'wx/witness/samlang_compiler_lib.rs', 'verif_witness_search_errors'),
+  'usegates': ('samlang-compiler', 'crates/samlang-compiler/src/lib.rs', 'wx/witness/samlang_compiler_lib.rs', 'verif_witness_search_single_fault_mutants'),
+  'ssanames': ('samlang-compiler', 'crates/samlang-compiler/src/lib.rs', 'wx/witness/samlang_compiler_lib.rs', 'verif_witness_search_single_fault_mutants'),
   'srvstate': ('samlang-services', 'crates/samlang-services/src/server_state.rs', 'wx/witness/samlang_services_server_state.rs', 'verif_witness_search'),
   'enumlayout': ('samlang-compiler', 'crates/samlang-compiler/src/lib.rs', 'wx/witness/samlang_compiler_lib.rs', 'verif_witness_search_enum_layout'),
   'tripcount': ('samlang-optimization', 'crates/samlang-optimization/src/loop_algebraic_optimization.rs', 'wx/witness/samlang_optimization_tripcount.rs', 'verif_witness_search'),
@@ -71,11 +73,11 @@ def search(unit, repo, seed=0, timeout=900):
       out += '\n[timeout]\n'
     m = re.search(r'WITNESS: (.*)$', out, re.M)
     res = {'cmd': ' '.join(cmd) + '   (in a scratch copy of /repo with `#[cfg(test)] #[path = "%s"] mod verif_witness;` appended to %s)' % (os.path.join(VERIF, src), rel),
-           'log_tail': out[-2500:], 'wall_s': time.time() - t0}
+           'log_tail': out[-2500:], 'log_head': out[:20000], 'wall_s': time.time() - t0}
     if m:
       res.update(found=True, witness=m.group(1))
     elif 'WITNESS-SEARCH: no violating history found' in out:
-      res.update(found=False, witness='')
+      res.update(found=False, witness='', explored=' | '.join(re.findall(r'WITNESS-SEARCH: no violating history found *(.*)$', out, re.M))[:400])
     else:
       # a panic inside the real code (e.g. index out of bounds) during a history is a witness too
       pm = re.search(r"panicked at ([^\n]*)\n([^\n]*)", out)
